@@ -12,6 +12,7 @@ import z3
 from .sym import SStr, Unsupported, mk_str, str_term
 
 MULTI_SPACE = ' +'
+NUMBER_TEXT = r'\s*[+-]?(\d+\.?\d*|\.\d+)([eE][+-]?\d+)?\s*\Z'
 OPERATORS = '^(?P<oper>(=|<>|<=?|>=?))?(?P<value>.*)$'
 STAR = r'\*(?<!~)'
 QMARK = r'\?(?<!~)'
@@ -33,6 +34,8 @@ class SRegex:
         if name == 'sub' and self.pattern in (STAR, QMARK):
             ch = '*' if self.pattern == STAR else '?'
             return Builtin('re.sub', lambda i, a, k, n: sub_char(i, ch, a[0], a[1], n))
+        if name == 'match' and self.pattern == NUMBER_TEXT:
+            return Builtin('re.match', lambda i, a, k, n: number_text_match(i, a[0], n))
         if name == 'sub' and self.pattern == MULTI_SPACE:
             return Builtin('re.sub', lambda i, a, k, n: collapse_spaces(i, a[0], a[1], n))
         raise Unsupported(f're pattern {self.pattern!r}.{name}', node)
@@ -60,6 +63,26 @@ def collapse_spaces(interp, repl, s, node):
                                z3.SuffixOf(sp, r) == z3.SuffixOf(sp, t),
                                (z3.Length(r) == 0) == (z3.Length(t) == 0)))
     return mk_str(r)
+
+
+def number_text_match(interp, s, node):
+    """NUMBER_TEXT_RE.match(s): truthy exactly for the texts that are written like a number (optional sign, ASCII digits
+    with an optional decimal point, optional exponent, white space around) - an uninterpreted predicate number_text(s)
+    with the one fact the code relies on: such a text is parsed by float() (A-STRNUM)"""
+    if not isinstance(s, (SStr, str)):
+        interp.raise_exc('TypeError', 'expected string or bytes-like object', node)
+    if isinstance(s, str):
+        import re
+        return SMatch(None, s) if re.compile(NUMBER_TEXT, re.ASCII).match(s) else None
+    from .builtins_model import uf, S, B
+    interp.world.trusted.add('A-RE: NUMBER_TEXT_RE.match(s) is an uninterpreted predicate number_text(s); number_text(s) '
+                             'implies that float(s) parses (A-STRNUM)')
+    t = s.t
+    nt = uf('number_text', S, B)(t)
+    interp.ex.add_axiom(z3.Implies(nt, uf('float_parses', S, B)(t)))
+    if interp.ex.branch(nt):
+        return SMatch(None, s)
+    return None
 
 
 class SMatch:
@@ -113,4 +136,5 @@ def register(ext):
     from .interp import Builtin
     ext['re.compile'] = Builtin('re.compile', x_compile)
     ext['re.VERBOSE'] = 64
+    ext['re.ASCII'] = 256
     ext['re.IGNORECASE'] = 2
